@@ -167,7 +167,7 @@ PROPS = {
     "C05": {
         "rules": [traversal.rule_trav(["axcut::traits::free_vars::FreeVars", "axcut::traits::substitution::Subst",
                                    "axcut::traits::typed_free_vars::TypedFreeVars", "axcut::traits::linearize::Linearizing"]), wiring.rule_wire_intra, annot.rule_annot_freevars, shape.rule_shape,
-                  fresh.rule_fresh, linear.rule_linear_subst, inputs.rule_useall_for(["axcut"], 50)],
+                  fresh.rule_fresh, linear.rule_linear_subst, linear.rule_linear_ctx, inputs.rule_useall_for(["axcut"], 50)],
         "text": "Structural necessary conditions of linearization: every FreeVars/Subst/TypedFreeVars/Linearizing impl of AxCut visits "
                 "every sub-statement (R-TRAV), free-variable annotation precedes linearization (R-WIRE) and is set on every path "
                 "(R-ANNOT), only Substitute reaches the panic of Statement::linearize (R-SHAPE).",
